@@ -1442,3 +1442,157 @@ def check_parse_validation_order(ctx, res, config="all"):
         else:
             res.ok("R3-parse-order", key, {"order": "strip sign, then reject empty / leading '_' with Err"})
     res.clause("C06: from_str_radix strips the optional sign first and applies the empty-input and leading-underscore rejections (Err) to the remaining string; BigInt delegates the magnitude to BigUint's parser")
+
+
+# ------------------------------------------------------------------------------------------
+# overflow-checked arithmetic directly on a caller-supplied scalar
+
+
+def _scalar_param_root(b, op, depth=0):
+    """the by-value integer parameter this operand is (through moves and value-preserving casts), else None"""
+    from . import r2 as _r2
+
+    while depth < 20:
+        if op["k"] == "const":
+            return None
+        pl = op["place"]
+        if pl["proj"]:
+            return None
+        l = pl["local"]
+        if b.is_param(l):
+            ty = b.locals[l]["ty"]
+            return l if _r2.int_info(ty) else None
+        ds = b.defs().get(l, [])
+        if len(ds) != 1 or ds[0][0] != "assign" or b.partial_defs().get(l):
+            return None
+        rv = ds[0][3]["rv"]
+        if rv["k"] == "use":
+            op = rv["op"]
+        elif rv["k"] == "cast" and rv["ck"] == "IntToInt" and _r2.lossless_cast(rv["from"], rv["to"]):
+            op = rv["op"]
+        else:
+            return None
+        depth += 1
+    return None
+
+
+def _int_range(ty):
+    from . import r2 as _r2
+
+    sg, bits = _r2.int_info(ty)
+    return (-(1 << (bits - 1)), (1 << (bits - 1)) - 1) if sg else (0, (1 << bits) - 1)
+
+
+def _param_is_bounded(b, p, binop, k):
+    """Conservative: True when the body may have established a range for parameter p before the arithmetic - an ordering
+    comparison of p (through moves / value-preserving casts), an equality test against a constant at the overflowing edge,
+    or p handed to any call (unknown).  False only when none of these exists anywhere in the body."""
+    lo, hi = _int_range(b.locals[p]["ty"])
+
+    def is_p(o):
+        return o["k"] != "const" and _scalar_param_root(b, o) == p
+
+    def edge(c):
+        if c is None:
+            return True
+        if binop == "MulWithOverflow":
+            return False
+        if not isinstance(k, int):
+            return True
+        kk = abs(k)
+        top = (binop == "AddWithOverflow") == (k > 0)
+        return c >= hi - kk + 1 if top else c <= lo + kk - 1
+
+    for bi, si, s_ in b.stmts():
+        rv = s_.get("rv")
+        if rv and rv["k"] == "binop" and rv["op"] in ("Lt", "Le", "Gt", "Ge", "Eq", "Ne", "Cmp"):
+            for o, other in ((rv["a"], rv["b"]), (rv["b"], rv["a"])):
+                if is_p(o):
+                    if rv["op"] in ("Eq", "Ne"):
+                        c = core.op_const(other) if other["k"] == "const" else None
+                        if edge(c):
+                            return True
+                    else:
+                        return True
+    for bi, t in b.terms():
+        if t["k"] == "switch" and is_p(t["discr"]):
+            vals = [v for v in t.get("values", [])]
+            if not vals or any(edge(v) for v in vals):
+                return True
+        if t["k"] == "call":
+            for a in t["args"]:
+                if is_p(a):
+                    return True
+                # a reference to the parameter handed to a call
+                if a["k"] != "const" and not a["place"]["proj"]:
+                    ds = b.defs().get(a["place"]["local"], [])
+                    if len(ds) == 1 and ds[0][0] == "assign" and ds[0][3]["rv"]["k"] == "ref" and ds[0][3]["rv"]["place"]["local"] == p:
+                        return True
+    return False
+
+
+def check_operand_overflow(ctx, res, config="all"):
+    """In an exported function, `p + c`, `p - c`, `p * c` (c a non-zero constant or another full-range parameter) on a by-value
+    integer parameter that the body never compares with anything overflows for an extreme p: the debug build panics and the
+    release build wraps, so the two profiles disagree (and a documented total operation panics)."""
+    from . import r2 as _r2
+
+    facts = ctx.facts(config)
+    nb = ns = 0
+    for b in facts.bodies:
+        if not b.exported() or b.kind not in ("Fn", "AssocFn"):
+            continue
+        if not (b.file or "").startswith("src/"):
+            continue
+        nb += 1
+        live = b.live_blocks()
+        cmp_roots = None
+        for bi, t in b.terms():
+            if bi not in live or t["k"] != "assert" or t.get("msg") != "Overflow":
+                continue
+            c = t["cond"]
+            if c["k"] == "const":
+                continue
+            l = c["place"]["local"]
+            ds = b.defs().get(l, [])
+            # cond is `move (_t.1)` or a temp copied from it
+            src = None
+            if c["place"]["proj"]:
+                src = l
+            elif len(ds) == 1 and ds[0][0] == "assign" and ds[0][3]["rv"]["k"] == "use" and ds[0][3]["rv"]["op"]["k"] != "const":
+                src = ds[0][3]["rv"]["op"]["place"]["local"]
+            if src is None:
+                continue
+            dd = b.defs().get(src, [])
+            if len(dd) != 1 or dd[0][0] != "assign" or dd[0][3]["rv"]["k"] != "binop":
+                continue
+            rv = dd[0][3]["rv"]
+            if rv["op"] not in ("AddWithOverflow", "SubWithOverflow", "MulWithOverflow"):
+                continue
+            ns += 1
+            pa, pb = _scalar_param_root(b, rv["a"]), _scalar_param_root(b, rv["b"])
+
+            def nonzero_const(o):
+                return o["k"] == "const" and core.op_const(o) not in (None, 0) and not (rv["op"] == "MulWithOverflow" and core.op_const(o) == 1)
+
+            hit = None
+            if pa is not None and (nonzero_const(rv["b"]) or pb is not None):
+                hit = pa
+            elif pb is not None and nonzero_const(rv["a"]) and rv["op"] != "SubWithOverflow":
+                hit = pb
+            if hit is None:
+                continue
+            involved = {x for x in (pa, pb) if x is not None}
+            kconst = core.op_const(rv["b"]) if rv["b"]["k"] == "const" else (core.op_const(rv["a"]) if rv["a"]["k"] == "const" else None)
+            if any(_param_is_bounded(b, p_, rv["op"], kconst) for p_ in involved):
+                continue
+            nm = b.locals[hit].get("name") or ("_%d" % hit)
+            res.fail(Finding("R3c-operand-overflow", "%s|%s|%s" % (b.path, nm, rv["op"].replace("WithOverflow", "")),
+                             "overflow-checked %s directly on the caller-supplied `%s: %s`, which the function never compares with anything (line %s): for an extreme value the debug build panics and the release build wraps" % (rv["op"].replace("WithOverflow", "").lower(), nm, b.locals[hit]["ty"], t["span"]["line"]), b, t["span"]["line"]))
+        res.ok("R3c-operand-overflow", b.path, None, nontrivial=False)
+    res.distinct.add("R3c-operand-overflow:all")
+    res.count("exported bodies scanned for overflow on caller-supplied scalars", nb)
+    res.count("overflow-checked + - * sites inspected", ns)
+    if nb < 900:
+        res.fail(Finding("R3-anchor-lost", "operand-overflow", "only %d exported bodies (floor 900)" % nb, file="src", line=0))
+    res.clause("R3c: no exported function applies overflow-checked + - * to a by-value integer parameter that it never compares with anything (profile divergence for extreme values)")
